@@ -29,7 +29,20 @@ CHECK = {'level': 'exploration',
          'the model. Labels count scans by class (in hook / succeeding / failing command, over a staged delete of a persisted key by the same or '
          'an earlier program, over created / overwritten keys, beside a delete, after a restore, limit hit, reverse, empty), committed blocks '
          'that delete a persisted key which a hook or succeeding command scanned after the delete, Finalize calls, reverts above / at / refused '
-         'below the finalized height. Distinct by digest of the whole history',
+         'below the finalized height. Fourth family (TestC16CrashPoints + TestRegressCrashInsideCommitRevertInit): fault enumeration over file-system '
+         'operations - the state database is the production db.DB opened on pebble\'s strict in-memory file system behind a wrapper that counts every '
+         'operation changing durable state (create/write/sync/rename/remove/link/mkdir/dir-sync); a generated short history (genesis, 0-4 steps of '
+         'light or general blocks - sets/overwrites/deletes/scans, failing commands, events - reverts, restarts 0-2 deep) is followed by ONE target '
+         'ABI call: Commit(H) of a block, Revert(H) as consensus.deleteBlock issues it, or Init with the application 1 or 2 blocks ahead of the '
+         'engine (recovery reverts); K = number of file-system operations of that call in a crash-free reference run; for EVERY k = 0..K the whole '
+         'case is replayed on a fresh file system with the process dying right before the k-th operation of the call (k = K: right after the last '
+         'one), unsynced data is lost (ResetToSyncedState), the database is reopened and Init is called as engine.Start does with every engine tip '
+         'possible at that crash point, derived from the call order in pkg/consensus (processValidated: abi.Commit then chain.AddBlock; deleteBlock: '
+         'abi.Revert then chain.RemoveBlock; engine.Start: abi.Init with the stored tip): during Commit(H) the tip is H-1, during Revert(H) it is H, '
+         'after the last operation of the call additionally H resp. H-1, during Init it is fixed. Labels: target call kind, K, what lay on disk '
+         'after the crash (landed-before / landed-after / landed-between / mixed), engine tip, Init did nothing / recovered by Init (1, 2 blocks) / '
+         'refused because the application is below the engine tip. Non-trivial for these cases = the target call changes the state and either Init '
+         'had to roll back or the crash fell strictly inside the call. Distinct by digest of the whole history (crash cases: + crash point + engine tip)',
  'level_text': 'Model-based test of transaction atomicity and state-root derivation: after every ExecuteTransaction the response events '
                '(identity, order, indexes, standard event) and the staged state (reads and Iterate/Range results inside programs + full probe) must equal the model (scans are pure reads: a '
                'scan after a staged write must neither show stale data nor change what is committed); after '
@@ -38,22 +51,35 @@ CHECK = {'level': 'exploration',
                'across reorganisations 1-4 blocks deep with state-neutral blocks, where records kept per height for abandoned blocks (diffs) '
                'must not influence a later Revert or recovery; Revert returns exactly the root before the block. Finalize leaves state, root and '
                'record as they are; Revert/recovery of blocks above the finalized height restore exactly; a Revert at or below it either restores '
-               'exactly or is refused with nothing changed.',
+               'exactly or is refused with nothing changed. Crash points inside Commit / Revert / Init recovery (fault enumeration over the file-system '
+               'operations of the call, unsynced data lost): whenever the Init of the next process returns success, state dump, tree-state record and '
+               'root must be the model\'s at the ENGINE\'s tip, and the chain must continue from there through the ordinary oracle (the target block '
+               'again or a new block, a block writing every key, a block deleting every key = empty-tree root, a Revert with expected root); an error '
+               'from Init is accepted only if the application on disk is, consistently (dump, record height and root), below the engine\'s tip - '
+               'nothing to roll back - and the refusal changed nothing.',
  'level_note': 'Sampled histories over a small key/value universe (2 stores x 5 keys x 6 values), reorganisations up to 4 blocks deep, recoveries '
                'up to 4 blocks deep; Finalize has no caller in the pinned tree, the histories call it between blocks with heights 0-3 below the tip, '
                'which of refusal/restoration happens at or below the finalized height is not asserted, recoveries are not sent below it; scans are '
                'checked as seen by commands/hooks of the framework (the diffdb overlay algebra itself, larger key sets and limit 0 remain C12); '
-               'reference SMT cross-checked against the real trie (TestRefSMTAgainstTrie).',
+               'reference SMT cross-checked against the real trie (TestRefSMTAgainstTrie). Crash enumeration: exhaustive over the crash points of ONE call per '
+               'sampled history (quick: 100 histories, about 400 crash runs); crash model = stop before a file-system operation with everything unsynced lost '
+               '(no torn single writes, no survival of unsynced data, no reordering - torn batches are C13); the unchanged tree issues 2 operations per '
+               'Commit/Revert (one WAL write + one sync of one batch), so K is 2 (4 for a two-block recovery); only the state database is on the crashing '
+               'file system, the engine\'s own database is represented by the tip handed to Init; Finalize is not a crash target.',
  'technique': 'property-based stateful testing (rapid) against a map model + reference sparse Merkle tree',
  'assumptions': ['snapshot/restore semantics = one overlay shared by all store handles (model in harness/c16/model_test.go)',
                  'tree key/value derivation as documented in LIP-0040 and framework/state_batch.go (prefix || H(key) -> H(value)), deleted keys absent',
                  'hook events lie outside the command snapshot and are always kept',
-                 'ExecuteTransaction requests carry a Consensus message in generated histories (the in-process callers omit it: finding C16-F5)'],
+                 'ExecuteTransaction requests carry a Consensus message in generated histories (the in-process callers omit it: finding C16-F5)',
+                 'crash points: the engine records a block after abi.Commit returned and removes it after abi.Revert returned (pkg/consensus/execute.go), so the engine tip can be ahead of a crashed Commit / behind a crashed Revert only once the call has issued its last file-system operation',
+                 'crash points: an application that is consistently BELOW the engine tip after a crash (Revert durable, engine had not removed the block yet) may be refused by Init - the statement speaks of rolling back only'],
  'quick': [{'pkg': 'c16', 'run': 'TestC16Histories|TestRegress', 'checks': 4000, 'timeout': 900},
            {'pkg': 'c16', 'run': 'TestRefSMTAgainstTrie', 'checks': 400, 'timeout': 300},
            {'pkg': 'c16', 'run': 'TestC16Reorgs', 'checks': 1500, 'timeout': 900},
-           {'pkg': 'c16', 'run': 'TestC16Scans', 'checks': 1200, 'timeout': 900}],
+           {'pkg': 'c16', 'run': 'TestC16Scans', 'checks': 1200, 'timeout': 900},
+           {'pkg': 'c16', 'run': 'TestC16CrashPoints', 'checks': 100, 'timeout': 900}],
  'thorough': [{'pkg': 'c16', 'run': 'TestC16Histories|TestRegress', 'checks': 25000, 'shards': 15, 'timeout': 2400},
               {'pkg': 'c16', 'run': 'TestRefSMTAgainstTrie', 'checks': 5000, 'shards': 1, 'timeout': 2400},
               {'pkg': 'c16', 'run': 'TestC16Reorgs', 'checks': 12000, 'shards': 6, 'timeout': 2400},
-              {'pkg': 'c16', 'run': 'TestC16Scans', 'checks': 12000, 'shards': 4, 'timeout': 2400}]}
+              {'pkg': 'c16', 'run': 'TestC16Scans', 'checks': 12000, 'shards': 4, 'timeout': 2400},
+              {'pkg': 'c16', 'run': 'TestC16CrashPoints', 'checks': 2500, 'shards': 3, 'timeout': 2400}]}
